@@ -6,6 +6,24 @@ remaining inputs are symbolic), unwind, timeout_ms. Only bounds that ran clean o
 
 CHECKS = {}
 
+
+import os as _os, re as _re
+
+def lock_lines(relfile, func_regex):
+    """Source lines (1-based) of the Lock()/RLock() statements inside the functions of /repo's CURRENT relfile whose
+    declaration matches func_regex: interference points are named by function, the line is looked up on every run."""
+    repo = _os.environ.get("VERIF_REPO", "/repo")
+    out, fn = [], ""
+    try:
+        for i, ln in enumerate(open(_os.path.join(repo, relfile)).read().split("\n"), 1):
+            if ln.startswith("func "):
+                fn = ln
+            if _re.match(r"^\s*[\w\.\[\]\(\)\*&]+\.R?Lock\(\)\s*(//.*)?$", ln) and _re.search(func_regex, fn):
+                out.append(i)
+    except OSError:
+        pass
+    return out
+
 CHECKS["C07"] = {
     "pkg": "./core/parsigdb",
     "parallel": 6,
@@ -18,6 +36,9 @@ CHECKS["C07"] = {
         {"harness": "VerifC07Batch", "params": {"n": 4, "pre": [4, 5]}},
         {"harness": "VerifC07Batch", "params": {"n": 3, "pre": [2, 3]}},
         {"harness": "VerifC07Batch", "params": {"n": 4, "pre": 5}, "reversemaps": True},
+        # two overlapping StoreExternal calls: the second runs at a lock boundary of the first (symbolic choice)
+        {"harness": "VerifC07Intf", "params": {"n": 4, "pre": [0, 1, 2]}},
+        {"harness": "VerifC07Intf", "params": {"n": 3, "pre": [0, 1]}},
     ],
     "thorough": [
         {"harness": "VerifC07Single", "params": {"n": 4, "k": 6, "dtype": 2, "vals": [0, 21], "ints": [0, 21, 63]}, "cross": True},
@@ -32,7 +53,7 @@ CHECKS["C07"] = {
         "quick": "n in {3,4}, threshold ceil(2n/3); histories of k<=5 single-entry batches; share index 1..n, root in {0,1,2}, signature id (8 bit) symbolic per step; internal/external pattern and validator-per-step pattern concrete per case; loop unwinding 12; plus one two-validator batch after up to 5 preliminary single-entry stores (both map iteration orders)",
         "thorough": "n in 3..7; k<=7; both map iteration orders for n=4; every VC decided by z3 and cvc5 for n<=4",
     },
-    "outside": "longer histories; concurrent interleaving of two Store calls at store() granularity; real SignedData types (a harness type with a 1-byte root stands in; json.Marshal is an injective function of all fields)",
+    "outside": "longer histories; more than two overlapping calls (two overlapping StoreExternal calls are covered by VerifC07Intf: the second runs at a symbolically chosen lock boundary of the first); real SignedData types (a harness type with a 1-byte root stands in; json.Marshal is an injective function of all fields)",
     "assumptions": [
         "json.Marshal of ParSignedData is injective and deterministic (stub: ideal injective function of all fields)",
         "time.Now returns an arbitrary instant (only used for metrics)",
@@ -305,10 +326,10 @@ CHECKS["C20"] = {
                      + [(3, 0, 0, l) for l in (21, 25, 37, 22, 41, 26)] + [(3, 3, e, 17) for e in (0, 1, 4, 5)] + [(3, 6, e, 17) for e in (0, 5)]
                      + [(3, 1, 6, 20), (3, 2, 6, 20), (4, 3 + 0 * 27, 13, 1 + 16 + 64)], case_timeout_s=6000),
     "bounds": {
-        "quick": "proposer, attester and sync-committee duties caches; 3 validators x 2 epochs, at most one duty per validator and epoch with symbolic presence and content, two table generations (reorg changes the later epoch); sequences of 2 requests (index-list lengths 0..2 concrete per case, the requested validators symbolic and distinct, same or different epochs) and request/invalidate/request, request/trim/request; private copies checked by object identity between successive answers",
+        "quick": "two overlapping requests (index sets of 2 and 1 validators, then a request for 1; attester duties): the second request runs, whole, between the first one's cache lookup and its store (interference point = the Lock in storeOrAmendAttesterDuties, looked up in the current source) or before its lookup; every answer, during and after, must be the beacon node's; proposer, attester and sync-committee duties caches; 3 validators x 2 epochs, at most one duty per validator and epoch with symbolic presence and content, two table generations (reorg changes the later epoch); sequences of 2 requests (index-list lengths 0..2 concrete per case, the requested validators symbolic and distinct, same or different epochs) and request/invalidate/request, request/trim/request; private copies checked by object identity between successive answers",
         "thorough": "all length/epoch combinations for 2 requests, selected 3-request sequences, invalidate/trim at other positions",
     },
-    "outside": "concurrent callers (the cache takes its lock separately in fetch* and storeOrAmend*; sequences of whole calls are not a sound reduction there); validators with several duties in one epoch; duplicate indices in one request; metadata maps; more than 3 validators / 2 epochs",
+    "outside": "more than two overlapping callers and interference at other lock points than the registered ones; validators with several duties in one epoch; duplicate indices in one request; metadata maps; more than 3 validators / 2 epochs",
     "assumptions": [
         "the beacon node is a harness implementation of the three duty calls that filters a symbolic assignment table by the requested indices (empty list = no filter) and never fails",
         "sync.RWMutex modelled as a lock bit; metrics/logging are no-ops",
@@ -317,6 +338,16 @@ CHECKS["C20"] = {
 
 # ---------------------------------------------------------------------------------------------------------------
 _C9R = []
+_C20_CACHE = "app/eth2wrap/cache.go"
+CHECKS["C20"]["quick"] = CHECKS["C20"]["quick"] + [
+    {"harness": "VerifC20Intf", "params": {"typ": 1, "npre": 0, "na": 2, "nb": 1, "nc": 1, "intf_line": lock_lines(_C20_CACHE, r"storeOrAmendAttesterDuties")}, "prune": 1000, "timeout_ms": 120000, "case_timeout_s": 3000},
+]
+CHECKS["C20"]["thorough"] = CHECKS["C20"]["thorough"] + [
+    {"harness": "VerifC20Intf", "params": {"typ": 1, "npre": [0, 1], "na": [1, 2], "nb": 2, "nc": [1, 2], "intf_line": lock_lines(_C20_CACHE, r"storeOrAmendAttesterDuties|fetchAttesterDuties")}, "prune": 1000, "timeout_ms": 300000, "case_timeout_s": 6000},
+    {"harness": "VerifC20Intf", "params": {"typ": 0, "npre": 1, "na": 2, "nb": 2, "nc": 1, "intf_line": lock_lines(_C20_CACHE, r"storeOrAmendProposerDuties|fetchProposerDuties")}, "prune": 1000, "timeout_ms": 300000, "case_timeout_s": 6000},
+    {"harness": "VerifC20Intf", "params": {"typ": 2, "npre": 1, "na": 2, "nb": 2, "nc": 1, "intf_line": lock_lines(_C20_CACHE, r"storeOrAmendSyncDuties|fetchSyncDuties")}, "prune": 1000, "timeout_ms": 300000, "case_timeout_s": 6000},
+]
+
 CHECKS["C09"] = {
     "pkg": "./core/sigagg",
     "parallel": 8,
@@ -346,8 +377,10 @@ _C13R = ["github.com/obolnetwork/charon/app/k1util.Sign=.vSign", "github.com/obo
 CHECKS["C13"] = {
     "pkg": "./dkg/bcast",
     "parallel": 4,
-    "quick": [{"harness": "VerifC13Bcast", "params": {"r": [1, 2]}, "redirects": _C13R}],
-    "thorough": [{"harness": "VerifC13Bcast", "params": {"r": [1, 2, 3]}, "redirects": _C13R, "cross": True, "timeout_ms": 300000}],
+    "quick": [{"harness": "VerifC13Bcast", "params": {"r": [1, 2]}, "redirects": _C13R},
+              {"harness": "VerifC13Intf", "params": {}, "redirects": _C13R}],
+    "thorough": [{"harness": "VerifC13Bcast", "params": {"r": [1, 2, 3]}, "redirects": _C13R, "cross": True, "timeout_ms": 300000},
+                 {"harness": "VerifC13Intf", "params": {}, "redirects": _C13R, "cross": True}],
     "bounds": {
         "quick": "3 members (one faulty sender, two honest); the sender issues r<=2 signature requests to each honest member and to an instance of member 2 running ANOTHER session (message id in {two registered ids, one unregistered}, payload byte symbolic), signs two arbitrary (session, id, payload) tuples itself, then delivers one message to each honest member whose three signatures are picked symbolically from everything it holds (incl. garbage)",
         "thorough": "r<=3, both solvers",
